@@ -214,13 +214,22 @@ fn produce_image_from_entry(entry: &Entry) -> Result<image::RgbaImage, String> {
         format!("cannot transcode from unknown color format {}", format)
     })?;
 
+    let expected_size = cformat.bytes_per_pixel() * content_width as usize * content_height as usize;
+    if texture_data.data.len() < expected_size || texture_data.data.len() % cformat.bytes_per_pixel() != 0 {
+        return Err(format!(
+            "image data is {} bytes, but {} bytes are needed for {}x{} pixels of {}",
+            texture_data.data.len(), expected_size, content_width, content_height, cformat.const_name(),
+        ));
+    }
     let content_argb = cformat.transcode_to_argb_8888(&texture_data.data);
     let content = BgraImage::from_raw(content_width, content_height, &content_argb[..]).expect("size error?!");
 
     let offset_x = entry.specs.offset_x;
     let offset_y = entry.specs.offset_y;
-    let output_width = content_width + offset_x;
-    let output_height = content_height + offset_y;
+    let (output_width, output_height) = match (content_width.checked_add(offset_x), content_height.checked_add(offset_y)) {
+        (Some(output_width), Some(output_height)) => (output_width, output_height),
+        _ => return Err(format!("image offset ({}, {}) is too large", offset_x, offset_y)),
+    };
     let output_init_argb = vec![0xFF; 4 * output_width as usize * output_height as usize];
     let mut output = BgraImage::from_raw(output_width, output_height, output_init_argb).expect("size error?!");
 
